@@ -32,7 +32,9 @@ def run(tier):
     stats = {"alleq": 0, "fail_replayed": 0, "nd_ok": 0}
     for c, o in zip(rcases, out):
         if c.startswith("replay"):
-            if o.endswith("ALLEQ"):
+            if o.startswith("SKIP"):
+                stats["skipped"] = stats.get("skipped", 0) + 1
+            elif o.endswith("ALLEQ"):
                 stats["alleq"] += 1
                 if " F=-" not in o:
                     stats["fail_replayed"] += 1
